@@ -713,6 +713,9 @@ func c17Regressions() []c17Scenario {
 	return []c17Scenario{
 		base("regression D42: plugin ./root/root.go vs core root/root.go", c17Plugin{Name: "alpha", Files: []kv2{{"./root/root.go", "PLUGIN"}}}),
 		base("regression D42: plugins x.go and ./x.go", c17Plugin{Name: "alpha", Files: []kv2{{"x.go", "AAA"}}}, c17Plugin{Name: "beta", Files: []kv2{{"./x.go", "BBB"}}}),
+		base("two plugins, one path, the same bytes (still two sources for one file)", c17Plugin{Name: "alpha", Files: []kv2{{"shared/helper.go", "SAME"}}}, c17Plugin{Name: "beta", Files: []kv2{{"shared/helper.go", "SAME"}}}),
+		base("two plugins, one file under two spellings, the same bytes", c17Plugin{Name: "alpha", Files: []kv2{{"shared/helper.go", "SAME"}}}, c17Plugin{Name: "beta", Files: []kv2{{"./shared//helper.go", "SAME"}}}),
+		base("two plugins, one path, both empty", c17Plugin{Name: "alpha", Files: []kv2{{"empty.go", ""}}}, c17Plugin{Name: "beta", Files: []kv2{{"empty.go", ""}}}),
 		base("regression D42: plugins a/b.go and /a//b.go", c17Plugin{Name: "alpha", Files: []kv2{{"a/b.go", "AAA"}}}, c17Plugin{Name: "beta", Files: []kv2{{"/a//b.go", "BBB"}}}),
 		base("regression D42: one plugin returning x.go and ./x.go", c17Plugin{Name: "alpha", Files: []kv2{{"x.go", "AAA"}, {"./x.go", "BBB"}}}),
 		{Label: "regression D34: thrift file named ...thrift directly in the inferred root", Cwd: "work", Main: "proj/...thrift", Out: "{S}/o/out",
